@@ -51,6 +51,7 @@ class FnContract:
     alias_ok: tuple = ()
     comp_membership: bool = False  # list comprehensions also get `y in result => y == body(i) for some passing i` (extra quantified fact)
     merge_branches: bool = True  # False: keep the paths of every `if` apart (more obligations, simpler terms)
+    dict_key_positions: bool = False  # every key k of a dict that is iterated / measured sits at a position of its key list: keys[keypos(k)] == k (Skolem function; extra quantified fact that slows some proofs down, hence opt-in)
     seq_positions: bool = False  # `x in <list>` / set(<list>) also yield a POSITION witness (L[p] == x) and "every position is a member" (extra quantified facts)
 
     @property
